@@ -26,3 +26,6 @@ package lokiapi
 //@   inline
 //@ func (QueryResponseData).IsStreamsResult
 //@   inline
+
+//@ func (*OptLabelSet).SetTo
+//@   inline
